@@ -64,6 +64,25 @@ inline std::vector<std::vector<std::uint64_t>> patterns(std::size_t nw, std::uin
         }
         v.push_back(b);      // 2^(64(k+1)) - 1
     }
+    // next to a rounding tie of a 53-bit significand (conversion to double): exactly on it, just above, just below,
+    // with the kept least significant bit clear and set
+    for (std::size_t k = 0; k < nw; ++k) {
+        for (std::uint64_t lsb : {0ULL, 1ULL << 8}) {
+            auto a = fill(0);
+            a[k] = (1ULL << 60) | lsb | (1ULL << 7);
+            v.push_back(a);      // tie
+            if (k > 0) {
+                a[0] = 1;
+                v.push_back(a);      // just above
+                auto b = fill(0);
+                for (std::size_t j = 0; j < k; ++j) {
+                    b[j] = ~0ULL;
+                }
+                b[k] = (1ULL << 60) | lsb | ((1ULL << 7) - 1);
+                v.push_back(b);      // just below
+            }
+        }
+    }
     rng r(salt);
     for (int k = 0; k < nrand; ++k) {
         auto a = fill(0);
